@@ -575,6 +575,10 @@ func handleConnectingTpReg(regManager *RegistrationManager, reg *DecoyRegistrati
 
 				defer conn.Close()
 
+				// The registration is carrying a connection from here on, same as a registration
+				// matched by an incoming connection for a wrapping transport.
+				regManager.MarkActive(reg)
+
 				// regManager.connectingStats.AddCreatedToSuccessfulConnecting(asn, cc, transport.Name())
 
 				Stat().AddConn()
